@@ -8,6 +8,7 @@ from ..ai import domain as D
 from ..ai.exec import Exec
 from ..ai.invariants import INVARIANTS
 from ..ai.models import M
+from ..ai.models3 import EXACT_ON_FIRST_BYTE
 from ..ai.values import Enum, Ref, Seq
 from ..epath import CFG
 from ..oflow import FAILURE_ARG, ROUTERS, OFlow, decode_fmt_template, flatten
@@ -17,6 +18,16 @@ from .common import fixture_facts, get_facts
 ROOT = "tz::timezone::TimeZoneSettings::<'_>::parse_posix_tz"
 LOCAL = "tz::timezone::TimeZoneSettings::<'_>::parse_local"
 
+EXPLANATION_PREFIX = (
+    " PREFIX (box theorems on the entry point, abstract interpreter; the value is marked and its first byte fixed): "
+    "for a value beginning with ':' no name handed to the reader directly is the whole value and the string decoder is "
+    "unreachable; for a value beginning with '/' the only name handed to the reader directly is the whole value (never a "
+    "part of it, a constant or a name built from a directory); for any other first byte no name handed to the reader "
+    "directly is the value or a part of it. Three-valued: a refutation is reported only if every foreign function that "
+    "was given (a part of) the value on the way is on the list of functions modelled exactly for the first byte "
+    "(tzverif/ai/models3.py EXACT_ON_FIRST_BYTE) and none answered imprecisely; otherwise INCONCLUSIVE is printed and "
+    "recorded, and nothing is reported."
+)
 EXPLANATION = (
     "READ = call through a function pointer (the injectable file reader); RESOLVE = READ or a crate function that may "
     "READ; PFILE = the TZif decoder ((&[u8]) -> Result<TimeZone, TzError>); PSTR = the string decoder (found by "
@@ -673,6 +684,108 @@ def empty_rule(f, root, is_sink, sparam_index=1):
     return variants, effects
 
 
+PREFIX_BOXES = [
+    # (name, first byte of the value, classes a directly read name may have, may the string decoder be reached)
+    ("colon", D.point(0x3A), {"PART", "UNMARKED"}, False),
+    ("slash", D.point(0x2F), {"WHOLE"}, True),
+    ("plain", D.remove_point(D.remove_point(D.rng(0, 255), 0x3A), 0x2F), {"UNMARKED"}, True),
+]
+PREFIX_TEXT = {
+    "colon": "a value beginning with ':'",
+    "slash": "a value beginning with '/'",
+    "plain": "a value beginning with neither ':' nor '/'",
+}
+CLASS_TEXT = {
+    "WHOLE": "the value itself, as is",
+    "PART": "a part of the value (a suffix or a trimmed form)",
+    "UNMARKED": "a name that is not the value (a constant, or a string built from a directory)",
+}
+
+
+def prefix_rule(f, root, is_sink, sparam_index=1):
+    """Box theorems on the entry point (abstract interpreter), one per class of first byte: which names can be handed
+    to the file reader *directly*, and whether the string decoder can be reached.  Three-valued: proven / refuted /
+    inconclusive (an expectation fails but the interpreter took an imprecise step on the value on the way)."""
+    out = []
+    for name, b0iv, allowed, pstr_ok in PREFIX_BOXES:
+        seen = {"reads": [], "pstr": [], "inexact": [], "param_len": None}
+
+        def marked_seq(I, S, a, depth=0):
+            v = a
+            for _ in range(5):
+                if isinstance(v, Ref) and v.cell is not None:
+                    v = I.read(S, v.cell, v.path, ("pfx", depth))
+                else:
+                    break
+            return v if isinstance(v, Seq) else None
+
+        def hook(ev, **kw):
+            I = kw.get("interp")
+            if ev == "env_call":
+                S = kw["state"]
+                for a in kw["args"]:
+                    v = marked_seq(I, S, a)
+                    if v is None:
+                        continue
+                    if ("tzvalue",) not in v.prov:
+                        cls = "UNMARKED"
+                    elif seen["param_len"] is not None and (v.len == seen["param_len"] or (S.entails(S.term(v.len).sub(S.term(seen["param_len"]))) and S.entails(S.term(seen["param_len"]).sub(S.term(v.len))))):
+                        cls = "WHOLE"
+                    else:
+                        cls = "PART"
+                    seen["reads"].append((cls, kw["term"].get("span")))
+            elif ev == "enter":
+                k = is_sink(kw["inst"])
+                if k == "PSTR":
+                    seen["pstr"].append(kw["inst"]["name"])
+                if k is not None:
+                    kw["state"].dead = True  # what the decoders do is not this rule's business
+            elif ev == "inexact":
+                S = kw["state"]
+                if not kw["callee"].startswith("core::fmt::") and any((lambda v: v is not None and ("tzvalue",) in v.prov)(marked_seq(I, S, a)) for a in kw["args"]):
+                    seen["inexact"].append("%s (%s)" % (kw["callee"], kw["why"]))
+            elif ev == "model_call":
+                # a foreign function that is given (a part of) the value and is not on the vetted list
+                if kw["callee"] not in EXACT_ON_FIRST_BYTE and not kw["callee"].startswith("core::fmt::"):
+                    S = kw["state"]
+                    if any((lambda v: v is not None and ("tzvalue",) in v.prov)(marked_seq(I, S, a)) for a in kw["args"]):
+                        seen["inexact"].append("%s (not on the list of functions modelled exactly for this rule)" % kw["callee"])
+
+        def mk(I, S, inst, args):
+            a = args[sparam_index]
+            v = I.read(S, a.cell, a.path, ("pfxv",))
+            if isinstance(v, Seq):
+                I.write(S, a.cell, a.path, Seq(v.kind, v.len, v.elem, v.efacts, v.data, v.prov | frozenset([("tzvalue",)])), ("pfxm",))
+                seen["param_len"] = v.len
+                S.add_fact(D.Lin.const(1).sub(S.term(v.len)))  # len >= 1 (the empty value is EMPTY's business)
+                b0 = I.read(S, a.cell, tuple(a.path) + (("ci", 0, 1, False),), ("pfxb0",))
+                if hasattr(b0, "sym"):
+                    S.assume_sym(b0.sym, D.meet(S.ivof(b0.sym), b0iv))
+            return args
+
+        I = Exec(f, M, INVARIANTS)
+        I.hooks.append(hook)
+        try:
+            I.analyse_root(root, mk)
+        except Exception as e:  # the interpreter could not follow the entry point: nothing decided
+            out.append((name, "inconclusive", "abstract interpreter: %s" % e, seen))
+            continue
+        if seen["param_len"] is None:
+            out.append((name, "inconclusive", "the TZ value parameter is not a tracked string", seen))
+            continue
+        bad = sorted({(c, sp) for c, sp in seen["reads"] if c not in allowed})
+        problems = ["for %s the file reader is given %s (at %s)" % (PREFIX_TEXT[name], CLASS_TEXT[c], sp) for c, sp in bad]
+        if seen["pstr"] and not pstr_ok:
+            problems.append("for %s the string decoder can be reached: ':' forces a file lookup with no fallback" % PREFIX_TEXT[name])
+        if not problems:
+            out.append((name, "proven", None, seen))
+        elif seen["inexact"]:
+            out.append((name, "inconclusive", "%s — but on the way the interpreter could not evaluate %s" % ("; ".join(problems), sorted(set(seen["inexact"]))[:3]), seen))
+        else:
+            out.append((name, "refuted", "; ".join(problems), seen))
+    return out
+
+
 def check(run, tier):
     configs = ["std"] if tier == "quick" else ["std", "alloc"]
     facts = get_facts(run, configs)
@@ -720,6 +833,18 @@ def check(run, tier):
         stats["EMPTY"] = {"return variants with len(value) = 0": variants, "effects reached": effects}
         if not ok:
             run.finding("EMPTY", "%s|empty" % cfg, "with an empty TZ value the entry point can return %s and reaches %s — an empty value must be refused before anything is read or decoded" % (variants, effects or "no effect"), root.get("span"))
+        pres = prefix_rule(f, root, is_sink)
+        stats["PREFIX"] = {}
+        for bname, verdict, why, seen in pres:
+            stats["PREFIX"][bname] = {"verdict": verdict, "direct reads (class, site)": sorted({(c, sp) for c, sp in seen["reads"]}), "string decoder reached": bool(seen["pstr"])}
+            if verdict == "inconclusive":
+                print("INCONCLUSIVE property=C20 box=%s %s" % (bname, why))
+                run.extra.setdefault("inconclusive", []).append({"config": cfg, "box": bname, "why": why})
+                run.obligation(True)  # counted, reported as inconclusive in the evidence, never as a finding
+                continue
+            run.obligation(verdict == "proven")
+            if verdict == "refuted":
+                run.finding("PREFIX", "%s|%s" % (cfg, bname), why, root.get("span"))
         run.sample(dict({"config": cfg}, **stats))
     # ---------------- controls
     fx = fixture_facts()
@@ -750,7 +875,13 @@ def check(run, tier):
     run.control("EMPTY fires on a resolver without emptiness test", v != ["Err"] or bool(eff))
     v, eff = empty_rule(fx, fx_inst("badcrate::resolve::Resolver::<'_>::ok_resolve"), fx_sink)
     run.control("EMPTY silent on the twin", v == ["Err"] and not eff)
-    run.floor("obligations", run.obligations, 12)
+    pv = {b: v for b, v, _, _ in prefix_rule(fx, fx_inst("badcrate::resolve::Resolver::<'_>::bad_prefix"), fx_sink)}
+    run.control("PREFIX refutes a resolver that opens a relative name containing '/' as is", pv.get("plain") == "refuted" and pv.get("slash") == "proven")
+    pv = {b: v for b, v, _, _ in prefix_rule(fx, fx_inst("badcrate::resolve::Resolver::<'_>::ok_resolve"), fx_sink)}
+    run.control("PREFIX proves all three boxes on the twin", set(pv.values()) == {"proven"})
+    pv = {b: v for b, v, _, _ in prefix_rule(fx, fx_inst("badcrate::resolve::Resolver::<'_>::bad_resolve"), fx_sink)}
+    run.control("PREFIX does not prove the ':' box of a resolver that falls back to the string after a failed ':' lookup", pv.get("colon") in ("refuted", "inconclusive"))
+    run.floor("obligations", run.obligations, 15)
     run.trusted += ["E-FLOW carrier list (tzverif/oflow.py TRANSPARENT): these std functions return nothing but (parts of) their arguments", "E-AI (see C07) for the EMPTY box theorem", "C15: no ambient file access outside the default reader"]
-    run.explanation = EXPLANATION
-    run.extra["not_decided"] = ["that the trimmed characters are exactly ASCII whitespace", "which error kind each failure yields", "directory order beyond forward iteration with first hit (slice::iter + find_map are carriers; rev/skip/filter are not)", "the ':' prefix test itself (value level)"]
+    run.explanation = EXPLANATION + EXPLANATION_PREFIX
+    run.extra["not_decided"] = ["that the trimmed characters are exactly ASCII whitespace", "which error kind each failure yields", "directory order beyond forward iteration with first hit (slice::iter + find_map are carriers; rev/skip/filter are not)", "that exactly one character is removed from a ':' value (the rest is known to be a proper part of it, not which)", "the nested case ':' followed by '/' (the same test site decides it; the boxes constrain the first byte of the whole value only)"]
